@@ -22,7 +22,7 @@ func init() {
 		Explanation: "Claim proved (modulo the trusted base): non-test code of packages ecs and ecs/stats contains no construct through which a run-dependent value can influence control flow, stored state or output, except the documented time limit of Shrink. " +
 			"Obligations, all enumerated from the source on every run: (O1) every iteration over a map (range, reflect MapRange/MapKeys, maps.Keys/Values, sync.Map.Range) is order-insensitive by a conservative effect rule; " +
 			"(O2) the import set and every referenced symbol of time, sync, reflect, unsafe, math/rand, os, runtime is classified, time.Now/Since occurring only in the Shrink time box; (O3) no go statement, select or channel operation; " +
-			"(O4) no unsafe.Pointer→uintptr conversion and no %p formatting; (O5) the positive control (an order-sensitive map range in checker/testdata) is flagged.",
+			"(O4) no unsafe.Pointer→uintptr conversion and no %p formatting; (O5) the positive control (an order-sensitive map range in checker/testdata) is flagged; (O6) no constructed value takes a field from a package-level variable that holds mutable memory, so that what another world of the same process does is not an input of this one.",
 		TrustedBase: []string{
 			"Go's slice/append/copy semantics are deterministic",
 			"reflect and encoding/json on non-map data are deterministic",
@@ -37,6 +37,7 @@ func init() {
 			{ID: "C12/O3", Run: c12o3, Min: 1},
 			{ID: "C12/O4", Run: c12o4, Min: 1},
 			{ID: "C12/O5", Run: c12o5, Min: 1, CrossConfig: true},
+			{ID: "C12/O6", Run: c12o6, Min: 0},
 		},
 	})
 }
